@@ -148,21 +148,30 @@ func CmpTotal(a, b any) Ordering {
 	return CmpEqual
 }
 
-var typeOfInt, typeOfMap uintptr
+var typeOfInt, typeOfList, typeOfMap uintptr
 
 func typeOf(x any) uintptr {
 	switch x.(type) {
 	case *big.Int, *big.Rat, float64:
 		return typeOfInt
+	case List:
+		// A list has more than one underlying Go type (a slice of a list is
+		// one), but they are all the same Elvish type.
+		return typeOfList
 	}
 	if IsFieldMap(x) {
 		return typeOfMap
 	}
+	return goTypeOf(x)
+}
+
+func goTypeOf(x any) uintptr {
 	// The first word of an empty interface is a pointer to the type descriptor.
 	return *(*uintptr)(unsafe.Pointer(&x))
 }
 
 func init() {
-	typeOfInt = typeOf(0)
-	typeOfMap = typeOf(EmptyMap)
+	typeOfInt = goTypeOf(0)
+	typeOfList = goTypeOf(EmptyList)
+	typeOfMap = goTypeOf(EmptyMap)
 }
